@@ -26,6 +26,7 @@ from .. import scen, impl, pf
 from ..impl import Quiet, problem_json, err_class
 from ..lean import fs
 from .common import grid_json, instant
+from . import obforms as FORMS
 
 OP = 'orderbook'
 
@@ -217,7 +218,7 @@ def gen_order(rnd, g, pts, kinds=KINDS, generic=False, force=None, numkinds=('fl
     return {'start': render_date(rnd, s, g['tz'], force), 'end': render_date(rnd, e, g['tz'], force), 'capa': capa, 'price': price, 'kind': kind}
 
 
-def gen_case(rnd, with_portfolio=None):
+def gen_case(rnd, with_portfolio=None, frame_share=0.2):
     numkinds = gen_numkinds(rnd)
     # whole numbers given as ints: more often than otherwise on a grid whose steps are not whole main time units, and
     # with discounting (the cost of an order is capa x price x discounted covered duration: not a whole number there)
@@ -235,7 +236,7 @@ def gen_case(rnd, with_portfolio=None):
     generic = with_portfolio and numkinds[1] == 'float' and rnd.random() < 0.5
     # orders handed over as a pandas DataFrame (the constructor takes `orders[col].values`); with every date of a
     # column zone-aware in ONE zone the column is datetime64[ns, tz] and `.values` drops the zone (finding F-20b)
-    frame = n > 0 and rnd.random() < 0.2
+    frame = n > 0 and rnd.random() < frame_share
     force = None
     if frame and tz_of(g) is not None and rnd.random() < 0.8:
         force = rnd.choice(['aware', 'aware_utc', 'aware_utc'])
@@ -274,6 +275,21 @@ def gen_case(rnd, with_portfolio=None):
             o['price'] = as_kind(rnd, numkinds[1], *rnd.choice([(-20, -20.0), (40, 40.0), (rnd.randint(-2, 15), q8(rnd, -2, 15))]))
             ins.append([rnd.randint(0, n), {kk: o[kk] for kk in ('start', 'end', 'capa', 'price')}])
         case['inert'] = ins
+    return case
+
+
+def gen_case_forms(rnd):
+    """stream `forms`: a case of `gen_case` (more often a DataFrame, more often several orders) whose order list reaches
+    the constructor in one of the container forms of comp/obforms.py"""
+    case = None
+    for _ in range(3):
+        case = gen_case(random.Random(rnd.getrandbits(48)), with_portfolio=(rnd.random() < 0.6), frame_share=0.55)
+        if len(case['ob']['args']['orders']['start']) >= 2 or rnd.random() < 0.3:
+            break
+    case['stream'] = 'forms'
+    n = len(case['ob']['args']['orders']['start'])
+    if case['malformed'] is None and n > 0:
+        case['container'] = FORMS.gen_container(rnd, case['frame'])
     return case
 
 
@@ -374,8 +390,10 @@ def shape_orders(case, cols):
     """the decoded order columns as the object handed to the constructor: dict of lists / tuples / numpy arrays / Series,
     or a DataFrame with int64 / float64 / object columns"""
     form = case.get('form') or {}
+    cont = case.get('container')
     if case.get('frame'):
-        return as_frame(cols, form)
+        df = as_frame(cols, form)
+        return FORMS.frame_container(df, cont) if cont else df
     out = {}
     for k, v in cols.items():
         if k in ('capa', 'price'):
@@ -384,7 +402,7 @@ def shape_orders(case, cols):
             out[k] = shape_dates(v, form.get('dates'))
         else:
             out[k] = v
-    return out
+    return FORMS.dict_container(out, cont) if cont else out
 
 
 def code_dtypes(case, spec=None):
@@ -469,6 +487,7 @@ def run_impl(case):
             res['grid_mismatch'] = True
     except Exception as e:
         res['error'] = err_class(e)
+        res['error_text'] = '%s: %s' % (type(e).__name__, str(e)[:120])
     return res
 
 
@@ -878,6 +897,59 @@ def oracle_inner(case):
     return viol, obs
 
 
+def oracle_container(case, ir):
+    """the statement of C20 on the order book's own problem, whatever the container of the order list: one execution
+    variable per order GIVEN (rows by position), bounds [0,1], cost of the variable = capa x price x discounted covered
+    duration computed by the harness from the plain columns; a container of well-formed orders must not raise when the
+    same orders as a plain dict of lists are set up"""
+    cont = case.get('container')
+    if not cont or case.get('malformed'):
+        return []
+    viol = []
+    cols = dec_nan(case['ob'])['args']['orders']
+    n = len(cols['start'])
+    what = 'DataFrame with index kind %r' % cont.get('index') if case.get('frame') else 'dict with entries %s' % (cont.get('wrap') or {})
+    facts = {'container': 'frame' if case.get('frame') else 'dict', 'index': cont.get('index'), 'orders': n}
+    if FORMS.numeric_series_labels(cont):
+        facts['series_numeric_labels'] = True
+    if frame_zone_dropped(case):
+        facts['frame_zone_dropped'] = True
+    if 'error' in ir:
+        plain = dict(case)
+        plain['container'] = None
+        ir0 = run_impl(plain)
+        if 'error' not in ir0:
+            viol.append(V('order_container', '%d orders given as %s (extra %s): set-up raises %s; the same orders as a plain %s are set up with %d variables' % (
+                n, what, cont.get('extra'), ir.get('error_text', ir['error']), 'DataFrame' if case.get('frame') else 'dict of lists', len(ir0['problem']['c'])), **facts))
+        return viol
+    c = [float(Fraction(v)) for v in ir['problem']['c']]
+    if len(c) != n:
+        viol.append(V('order_count', '%d orders given as %s: the order book has %d execution variables' % (n, what, len(c)), variables=len(c), **facts))
+        return viol
+    lo = [float(Fraction(v)) for v in ir['problem']['l']]
+    hi = [float(Fraction(v)) for v in ir['problem']['u']]
+    if any(v != 0.0 for v in lo) or any(v != 1.0 for v in hi):
+        viol.append(V('order_count', 'orders given as %s: bounds of the execution variables %s %s, expected [0,1]' % (what, lo, hi), **facts))
+    tg = own_grid(case)
+    F = facts_of(case, cols, tg)
+    df = discount(case['ob']['args'].get('wacc', 0.0), F['Dt'], F['unit'])
+    for o in range(n):
+        exp = F['capa'][o] * F['price'][o] * sum(F['dt'][t] * df[t] for t in F['cover'][o])
+        if abs(c[o] - exp) > 1e-9 * (1.0 + abs(exp)):
+            viol.append(V('order_cost', 'orders given as %s: variable %d costs %.12g, order %d (by position) costs capa x price x discounted covered duration = %.12g' % (
+                what, o, c[o], o, exp), order=o, **facts))
+            break
+    mp = {}
+    for m in ir['problem']['mapping']:
+        mp.setdefault(int(m['var']), []).append(int(m['step']))
+    for o in range(n):
+        if sorted(mp.get(o, [])) != list(F['cover'][o]):
+            viol.append(V('order_delivery', 'orders given as %s: variable %d delivers in steps %s, order %d (by position) covers steps %s' % (
+                what, o, sorted(mp.get(o, [])), o, list(F['cover'][o])), order=o, **facts))
+            break
+    return viol
+
+
 # ------------------------------------------------------------------------------------------- read-out correspondence
 def compare_readout(case, drv, rec=None):
     """model read-out (dispatchOut, dcf, orderRows on the MODEL's order-book problem) vs io.extract_output"""
@@ -952,6 +1024,10 @@ def run_case(case, drv):
         f.append('frame')
     if frame_zone_dropped(case):
         f.append('frame_zone_dropped')
+    if case.get('container'):
+        f += FORMS.features(case)
+        f.append('orders:%s' % ('1' if len(case['ob']['args']['orders']['start']) == 1 else 'several'))
+        r['violations'] += oracle_container(case, ir)
     if len(set(ir['grid']['dt'])) > 1:
         f.append('unequal_steps')
     # form of the numbers: what the generator drew and what the implementation sees
@@ -980,6 +1056,15 @@ def run_case(case, drv):
         dis += compare_readout(case, drv)
     elif 'error' not in ir:
         r['nontrivial'] = any(len(cv) > 0 for cv in mr.get('ok', {}).get('cover', []))
+    if FORMS.numeric_series_labels(case.get('container')):
+        # dict entries that are Series with numeric labels other than 0..n-1: the code reads `orders[col][i]` BY LABEL.  Every
+        # violation of such a case carries the fact; the model (orders by position) is then not the yardstick of the code, the
+        # difference is reported by the violations (statement level) instead of as a broken tie
+        for x in r['violations']:
+            x['facts']['series_numeric_labels'] = True
+        if r['violations'] and dis:
+            f.append('container:series_numeric_labels:reported_as_violation')
+            dis = []
     r['disagreements'] = [{'component': 'orderbook' if not d.startswith('orderbook_readout') else 'orderbook.readout', 'detail': d} for d in dis]
     return r
 
